@@ -335,3 +335,49 @@ theorem pickTip_sound (l : List Wk.Rec) :
   simpa using this
 
 end Run
+
+namespace Run
+open W
+
+theorem tipLt_total (a b : Wk.Rec) (h1 : tipLt a b = false) (h2 : tipLt b a = false) : a.height = b.height ∧ a.hash = b.hash := by
+  simp only [tipLt, Bool.or_eq_false_iff, Bool.and_eq_false_iff, decide_eq_false_iff_not, beq_eq_false_iff_ne] at h1 h2
+  have hh : a.height = b.height := by omega
+  refine ⟨hh, ?_⟩
+  rcases h1.2 with e | e
+  · exact (e hh).elim
+  · rcases h2.2 with e' | e'
+    · exact (e' hh.symm).elim
+    · exact lexLt_total _ _ e e'
+
+theorem eq_of_hash_eq : ∀ (l : List Wk.Rec), (l.map (·.hash)).Nodup → ∀ a ∈ l, ∀ b ∈ l, a.hash = b.hash → a = b
+  | [], _, _, ha, _, _, _ => by cases ha
+  | x :: xs, hd, a, ha, b, hb, e => by
+    have d : x.hash ∉ xs.map (·.hash) ∧ (xs.map (·.hash)).Nodup := List.nodup_cons.mp hd
+    rcases List.mem_cons.mp ha with rfl | ha' <;> rcases List.mem_cons.mp hb with rfl | hb'
+    · rfl
+    · exact (d.1 (by rw [e]; exact List.mem_map_of_mem hb')).elim
+    · exact (d.1 (by rw [← e]; exact List.mem_map_of_mem ha')).elim
+    · exact eq_of_hash_eq xs d.2 a ha' b hb' e
+
+/-- the tip does not depend on the order of the table (which is the order the keys happen to sort in): for records with pairwise
+    distinct hashes, any rearrangement of the table yields the same tip -/
+theorem pickTip_perm (l₁ l₂ : List Wk.Rec) (hp : l₁.Perm l₂) (hd : (l₁.map (·.hash)).Nodup) : pickTip l₁ = pickTip l₂ := by
+  obtain ⟨s1, n1⟩ := pickTip_sound l₁
+  obtain ⟨s2, n2⟩ := pickTip_sound l₂
+  cases h1 : pickTip l₁ with
+  | none =>
+    cases h2 : pickTip l₂ with
+    | none => rfl
+    | some t2 =>
+      obtain ⟨m2, v2, _⟩ := s2 t2 h2
+      have := n1 h1 t2 (hp.mem_iff.mpr m2); rw [v2] at this; cases this
+  | some t1 =>
+    obtain ⟨m1, v1, g1⟩ := s1 t1 h1
+    cases h2 : pickTip l₂ with
+    | none => have := n2 h2 t1 (hp.mem_iff.mp m1); rw [v1] at this; cases this
+    | some t2 =>
+      obtain ⟨m2, v2, g2⟩ := s2 t2 h2
+      have m2' := hp.mem_iff.mpr m2
+      have e := tipLt_total t1 t2 (g1 t2 m2' v2) (g2 t1 (hp.mem_iff.mp m1) v1)
+      rw [eq_of_hash_eq l₁ hd t1 m1 t2 m2' e.2]
+end Run
